@@ -135,7 +135,7 @@ pub fn read_loop(
         buf[..sz].fill(0xEE);
         let res = reader.read(&mut buf[..sz]);
         out.read_calls += 1;
-        if matches!(&res, Err(e) if e.kind() == io::ErrorKind::Interrupted) && out.interrupted < 1000 {
+        if matches!(&res, Err(e) if e.kind() == io::ErrorKind::Interrupted) && out.interrupted < 5_000_000 {
             // the std contract: a caller retries a read that was interrupted
             out.interrupted += 1;
             continue;
@@ -310,7 +310,7 @@ pub fn consume(resp: Response, plan: &ReadPlan, extra_after_end: usize) -> Consu
                                     delivered.extend_from_slice(&c[..n - la - lb]);
                                 }
                             }
-                            Err(e) if e.kind() == io::ErrorKind::Interrupted && interrupted < 1000 => interrupted += 1,
+                            Err(e) if e.kind() == io::ErrorKind::Interrupted && interrupted < 5_000_000 => interrupted += 1,
                             Err(e) => return fin(delivered, End::Error(format!("{:?}: {}", e.kind(), e))),
                         }
                         if delivered.len() > 600_000_000 {
@@ -358,7 +358,7 @@ pub fn consume(resp: Response, plan: &ReadPlan, extra_after_end: usize) -> Consu
                     Ok(0) => return Consumed { delivered, end: End::Clean, read_calls: calls, short_reads: 0, interrupted: 0, after_end: vec![], after_end_bytes: vec![] },
                     Ok(n) => delivered.extend_from_slice(&buf[..n.min(buf.len())]),
                     // the std contract: a caller retries a read that was interrupted
-                    Err(e) if e.kind() == io::ErrorKind::Interrupted && interrupted < 1000 => interrupted += 1,
+                    Err(e) if e.kind() == io::ErrorKind::Interrupted && interrupted < 5_000_000 => interrupted += 1,
                     Err(e) => return Consumed { delivered, end: End::Error(format!("{:?}: {}", e.kind(), e)), read_calls: calls, short_reads: 0, interrupted: 0, after_end: vec![], after_end_bytes: vec![] },
                 }
                 calls += 1;
